@@ -32,7 +32,29 @@ impl<F> ExecutionContext<F> {
     /// the sibling data attached to this op, if any (private data present AND of the permutation's sibling type)
     pub open spec fn sibling(&self) -> Option<Seq<F>> { match self.private_data { Some(d) => (match d.perm { Some(p) => Some(p.sibling@), None => None }), None => None } }
 }
-pub struct PoseidonPermExecutor { pub op_type: NpoTypeId, pub merkle_path: bool, pub new_start: bool, pub absorb_len: usize }
+pub struct PermCfg { pub wext: usize, pub dd: usize, pub a4: bool }
+impl PermCfg {
+    pub fn width_ext(&self) -> (r: usize) ensures r == self.wext { self.wext }
+    pub fn d(&self) -> (r: usize) ensures r == self.dd { self.dd }
+    pub fn is_arity4_shape(&self) -> (r: bool) ensures r == self.a4 { self.a4 }
+    #[verifier::external_body] pub fn rate_ext(&self) -> usize { unimplemented!() }
+}
+pub struct PoseidonPermExecutor { pub op_type: NpoTypeId, pub merkle_path: bool, pub new_start: bool, pub absorb_len: usize, pub config: PermCfg }
+/// the preprocessed-column writer of one table row: the committed columns in order (by value)
+pub struct PrepWriter { pub cols: Ghost<Seq<Fe>> }
+pub uninterp spec fn wid_fe(w: WitnessId) -> Fe;
+pub open spec fn wids_fe(ws: Seq<WitnessId>) -> Seq<Fe> { Seq::new(ws.len(), |i: int| wid_fe(ws[i])) }
+impl PrepWriter {
+    #[verifier::external_body]
+    pub fn register_non_primitive_preprocessed_no_read(&mut self, op: &NpoTypeId, v: &[Fe]) ensures final(self).cols@ == old(self).cols@ + v@ { unimplemented!() }
+    #[verifier::external_body]
+    pub fn register_non_primitive_witness_reads(&mut self, op: &NpoTypeId, ws: &Vec<WitnessId>) -> (r: Result<(), CircuitError>)
+        ensures r is Ok ==> final(self).cols@ == old(self).cols@ + wids_fe(ws@), r is Err ==> final(self).cols@ == old(self).cols@ { unimplemented!() }
+    #[verifier::external_body]
+    pub fn witness_index_as_field(&self, w: WitnessId) -> (r: Fe) ensures r == wid_fe(w) { unimplemented!() }
+}
+#[verifier::external_body] pub fn vec_of1(a: Fe) -> (r: Vec<Fe>) ensures r@ == seq![a] { unimplemented!() }
+#[verifier::external_body] pub fn vec_of2(a: Fe, b: Fe) -> (r: Vec<Fe>) ensures r@ == seq![a, b] { unimplemented!() }
 #[derive(Clone, Copy, PartialEq, Eq, Structural)] pub struct WitnessId(pub u32);
 #[derive(Clone, Copy, PartialEq, Eq, Structural)] pub struct Fe(pub u64);
 pub uninterp spec fn fe_bool(b: bool) -> Fe;
@@ -114,6 +136,22 @@ def build():
             ph.at_loop_end(f'for {t} in 0..n_{t}', f'proof {{ let h = compact_header(self, inputs@, {R}); assert(h.take({off} + {t} + 1) =~= h.take({off} + {t}).push(h[{off} + {t}])); }}')
         ph.rewrite_re('SPEC', r'(hdr\.push\(Fe::from_bool\(cap_chain_enable\)\);)', rf'\1 proof {{ let h = compact_header(self, inputs@, {R}); assert(h.take({R} + 1) =~= h.take({R}).push(h[{R}])); assert(h.take({R} + 2) =~= h.take({R} + 1).push(h[{R} + 1])); }}')
         ph.bind_tail('r_', f'proof {{ let h = compact_header(self, inputs@, {R}); assert(h.take(3 * ({R}) + 2) =~= h); }}')
+    # ---------------------------------------------------------------- preprocess_flags (whole): the committed tail of a row ends with its chain-start flag and its Merkle flag (C06: the compact AIR gates `capacity == tag` by it)
+    pf = u.extract(E, r'impl<V: PoseidonVariant> PoseidonPermExecutor<V>', 'preprocess_flags', 'PoseidonPermExecutor::preprocess_flags')
+    pf.set_sig('R11', 'fn preprocess_flags(&self, inputs: &Vec<Vec<WitnessId>>, preprocessed: &mut PrepWriter) -> Result<(), CircuitError>')
+    pf.rewrite_re('R11', r'\bF::from_bool\(', 'Fe::from_bool(', min_count=0)
+    pf.rewrite_re('R11', r'\bF::ZERO\b', 'Fe::from_bool(false)', min_count=0)
+    pf.rewrite_re('R11', r'\bF::ONE\b', 'Fe::from_bool(true)', min_count=0)
+    pf.rewrite_re('R7', r'&\[([^\[\],]+)\]\s*\)', r'vec_of1(\1).as_slice())', min_count=0)
+    pf.rewrite_re('R7', r'&\[([^\[\],]+),\s*([^\[\],]+?),?\s*\]\s*,?\s*\)', r'vec_of2(\1, \2).as_slice())', min_count=0)
+    pf.rewrite_re('R6', r'(\w+)\[([^\]]+)\]\.is_empty\(\)', r'(\1[\2].len() == 0)', min_count=0)
+    pf.requires('row_shape', 'inputs@.len() >= self.config.wext + 3 && self.config.wext < 0x1000')
+    pf.ensures('the_committed_tail_ends_with_the_chain_start_flag_and_the_merkle_flag', '''ret is Ok ==> ({ let c = final(preprocessed).cols@; let n = c.len() as int;
+            n >= old(preprocessed).cols@.len() + 2 && c[n - 2] == fe_bool(self.new_start) && c[n - 1] == fe_bool(self.merkle_path) && c.take(old(preprocessed).cols@.len() as int) =~= old(preprocessed).cols@ })''')
+    pf.ensures('compact_d1_sponge_row_tail', '''ret is Ok && self.config.dd == 1 && !self.merkle_path ==>
+            final(preprocessed).cols@ =~= old(preprocessed).cols@ + seq![fe_bool(false), fe_bool(false), fe_bool(self.new_start), fe_bool(self.merkle_path)]''')
+    from vf.unit import pull_in_helpers
+    helpers = pull_in_helpers(u, pf, E, r'impl<V: PoseidonVariant> PoseidonPermExecutor<V>', {'preprocess_flags', 'resolve_private_data', 'preprocess_inputs'}, 'PoseidonPermExecutor')
     lc = u.extract(E, r'impl<V: PoseidonVariant> PoseidonPermExecutor<V>', 'limb_ctl_enabled', 'PoseidonPermExecutor::limb_ctl_enabled')
     lc.set_sig('R11', 'fn limb_ctl_enabled(slot: &Vec<WitnessId>) -> bool')
     lc.rewrite_re('R6', r'!slot\.is_empty\(\)', 'slot.len() > 0', min_count=0)
@@ -124,5 +162,8 @@ def build():
     u.text('verus! {\nimpl PoseidonPermExecutor {')
     u.emit(r)
     u.emit(ph)
+    u.emit(pf)
+    for h_ in helpers:
+        u.emit(h_)
     u.text('}\n}')
     return u
